@@ -16,9 +16,12 @@ META = {
                    'converter and the code-block converter return the node\'s verbatim text on the edge where is_format_disabled is true and reach a typed '
                    'converter only on the false edge; every other call into a typed converter (a bypass of the checked entries) is in a frozen table with the '
                    'reason why no directive can apply there; (R2) the verbatim emitter produces arena.text(own text of the same node) with no transformer and no '
-                   'layout combinator of its own.',
+                   'layout combinator of its own; (R3) the pass that decides which node is marked is evaluated on sequences of children from the start of a node: a comment is '
+                   'taken for the directive exactly by `text contains "@typstyle off"`, it marks the next node that is not a Space or `#`, only that one, and a marked node is not '
+                   'descended into.',
     'decides': 'every conversion entry that can receive a marked expression, code body or equation body consults the mark and, if set, emits the node\'s own text untouched',
-    'does_not_decide': 'that the attribute pass marks the right node (a semantic walk), the final trailing-blank strip inside the region (exempt by the statement)',
+    'does_not_decide': 'the final trailing-blank strip inside the region (exempt by the statement); that the marked node is always one of the kinds whose converter consults the mark '
+                       '(e.g. a directive before a named argument marks the Named node, which is converted by convert_named without a check)',
     'trusted_base': ['grammar tables (typst-syntax 0.13.1)', 'bypass table in lib/rules/c07.py (one reason per edge)', 'pretty renders text verbatim', 'rustc MIR construction'],
 }
 
@@ -214,3 +217,120 @@ for _f in RULES:
     _f.needs = ('core',)
 MATRIX_RULES = RULES
 EXTRA_CONFIGS = ['core-serde']
+
+
+# ---------------------------------------------------------------------------------------------
+# R3: the pass that decides WHICH node is marked
+# ---------------------------------------------------------------------------------------------
+DIRECTIVE = '@typstyle off'
+
+
+def _marking_pass(w):
+    """the function of the attribute module that loops over children and calls the format-disabled setter (found by role)"""
+    core = w.core
+    setters = [b for b in w.fn_bodies(core) if b.def_kind != 'Closure' and b.short.startswith('attr::') and b.short.endswith('set_format_disabled')]
+    if len(setters) != 1:
+        raise AnchorMissing('attr::..::set_format_disabled')
+    cands = []
+    for b in w.fn_bodies(core):
+        if b.def_kind == 'Closure' or not b.short.startswith('attr::'):
+            continue
+        if any(resolved_id(t) == setters[0].id for _, t in b.calls()) and any((callee_path(t) or '').endswith('Iterator::next') for _, t in b.calls()):
+            cands.append(b)
+    if len(cands) != 1:
+        raise AnchorMissing('marking pass (loop over children that calls set_format_disabled): %s' % [c.short for c in cands])
+    return cands[0], setters[0]
+
+
+def r3_marking_pass(w):
+    r = RuleResult('C07.R3', 'the marking pass: a comment containing the directive marks itself and the next node that is not a Space or `#`, once; nothing else is marked', floor=7)
+    from sites import evaluate_sequence
+    b, setter = _marking_pass(w)
+    v = BodyView(w, b)
+    # (a) the directive test is `text(comment).contains("@typstyle off")`
+    tests = []
+    for bi, t in b.calls():
+        p = callee_path(t) or ''
+        if p.endswith('<impl str>::contains') and len(t['args']) == 2 and t['args'][1].get('o') == 'const':
+            tests.append((bi, t))
+    cons = {'fn': b.short, 'directive_tests': len(tests)}
+    lit_ok = [x for x in tests if x[1]['args'][1].get('str') == DIRECTIVE or (x[1]['args'][1].get('s') or '').strip('"\'') == DIRECTIVE]
+    if len(tests) == 1 and lit_ok:
+        bi, t = tests[0]
+        subj = v.describe_operand(t['args'][0])
+        kinds_guard = [vals for atom, vals, sw in v.guards(bi)]
+        r.ok(dict(cons, subject=subj), 'one test: str::contains(comment text, "%s")' % DIRECTIVE)
+    else:
+        what = [((callee_path(t) or '').rsplit('::', 1)[-1], t['args'][1].get('s')) for _, t in tests] or \
+               sorted({last(w.bodies[resolved_id(t)].short) for _, t in b.calls() if resolved_id(t) in w.bodies and w.bodies[resolved_id(t)].locals[0]['ty']['s'] == 'bool'})
+        r.bad(cons, 'marking|directive-test',
+              'the directive is not recognised by `comment text contains "%s"` (found %s): a comment that contains the directive anywhere in its text must switch formatting off for the next node'
+              % (DIRECTIVE, what), b.loc())
+    # (b) the state machine, evaluated on sequences of children
+    node_p = [i for i in range(1, b.arg_count + 1) if b.locals[i]['ty']['s'].startswith('&typst_syntax::SyntaxNode')]
+    if not node_p:
+        raise AnchorMissing('node parameter of the marking pass')
+    node_p = node_p[0]
+
+    def hook(ip, m, f, t, args):
+        rid = resolved_id(t)
+        if rid == setter.id:
+            n = None
+            for a in args:
+                a = ip.load(a) if isinstance(a, kf.Ref) else a
+                if isinstance(a, Node):
+                    n = a
+            m.events.append(('mark', n))
+            return kf.NOTHING_VAL
+        if rid == b.id and len(m.frames) >= 1:
+            n = None
+            for a in args:
+                a = ip.load(a) if isinstance(a, kf.Ref) else a
+                if isinstance(a, Node):
+                    n = a
+            m.events.append(('descend', n))
+            return kf.NOTHING_VAL
+        return None
+    C = Node('child', 'BlockComment')
+    X, Y = Node('child', 'FuncCall'), Node('child', 'Binary')
+    SP, HS = Node('child', 'Space', False), Node('child', 'Hash')
+
+    def run(seq):
+        res = evaluate_sequence(w, b, node_p, 'Code', seq, hooks={'mark': hook}, no_inline=lambda tb: tb.id != b.id, with_wholes=True, from_start=True)
+        out = []
+        for item in res or []:
+            loop, steps, assumed = item[0], item[1], item[2]
+            if loop is None or len(steps) < len(seq):
+                continue
+            st_ = [[(e[0], e[1].kind if isinstance(e[1], Node) else None) for e in st if e[0] in ('mark', 'descend')] for st in steps]
+            # the path on which the comment was taken for a directive is the one that marks the comment itself
+            out.append((('mark', seq[0].kind) in st_[0], st_))
+        return res is not None, out
+    cases = [
+        ('directive, node', [C, X], True, lambda st: ('mark', 'FuncCall') in st[1], 'the node after the directive comment is marked (and the comment itself)'),
+        ('directive, space, node', [C, SP, X], True, lambda st: ('mark', 'FuncCall') in st[2] and not [e for e in st[1] if e[0] == 'mark'], 'a Space between directive and node is skipped, the node is marked'),
+        ('directive, #, node', [C, HS, X], True, lambda st: ('mark', 'FuncCall') in st[2] and not [e for e in st[1] if e[0] == 'mark'], 'a `#` between directive and node is skipped, the node is marked'),
+        ('directive, node, node', [C, X, Y], True, lambda st: not [e for e in st[2] if e[0] == 'mark'] and ('descend', 'Binary') in st[2], 'only the first node after the directive is marked'),
+        ('plain comment, node', [C, X], False, lambda st: not [e for e in st[1] if e[0] == 'mark'] and not [e for e in st[0] if e[0] == 'mark'] and ('descend', 'FuncCall') in st[1],
+         'without the directive nothing is marked and the walk descends'),
+        ('marked node is not descended into', [C, X], True, lambda st: ('descend', 'FuncCall') not in st[1], 'inside a marked node nothing else is looked at'),
+    ]
+    for name, seq, want_label, pred, why in cases:
+        ok_eval, outs = run(seq)
+        cons = {'sequence': name}
+        sel = [st for lab, st in outs if lab is want_label]
+        if not ok_eval or not sel:
+            r.bad(cons, 'marking|%s|not-evaluated' % name, 'the marking pass could not be evaluated on <%s> (paths with directive=%s: %d)' % (name, want_label, len(sel)), b.loc())
+            continue
+        bad = [st for st in sel if not pred(st)]
+        if bad:
+            r.bad(cons, 'marking|%s' % name, 'marking pass on <%s>: expected that %s; observed per step %s' % (name, why, bad[0]), b.loc())
+        else:
+            r.ok(cons, why)
+    return r
+
+
+RULES = [r1_entries_consult_the_mark, r2_verbatim_emission, r3_marking_pass]
+for _f in RULES:
+    _f.needs = ('core',)
+MATRIX_RULES = RULES
